@@ -1,0 +1,23 @@
+//go:build verif
+
+package pkcs12
+
+import (
+	"crypto/cipher"
+
+	"golang.org/x/crypto/pkcs12/internal/rc2"
+)
+
+// Verification hooks (build tag "verif" only; add-only file, see /verif/harness/README.md).
+
+// VerifRC2New re-exports the constructor of the internal RC2 cipher.
+func VerifRC2New(key []byte, t1 int) (cipher.Block, error) { return rc2.New(key, t1) }
+
+// VerifPBKDF re-exports the RFC 7292 appendix B.2 key derivation exactly as the
+// decoder calls it (SHA-1, u = 20, v = 64).
+func VerifPBKDF(salt, password []byte, iterations int, id byte, size int) []byte {
+	return pbkdf(sha1Sum, 20, 64, salt, password, iterations, id, size)
+}
+
+// VerifBMPString re-exports the password encoding used by Decode and ToPEM.
+func VerifBMPString(s string) ([]byte, error) { return bmpString(s) }
